@@ -238,6 +238,7 @@ def run(ctx):
                     ok = pos is not None and len(binds) > pos and field_path(b) == (binds[pos],)
                 ctx.ob("K-PUNCT", "%s %s" % (nm, v), ok, "returns %s; bindings %s" % (hirpp_s(b), binds))
 
+    maps.rule_K_COPULAS(ctx)
     # ---- clause 2: tables unambiguous ---------------------------------------------
     tables.rule_T_DISTINCT(ctx, T, which=("enum",))
     ctx.rule("T-SHADOW", "in every first-match chain of the enum parser and every table: a keyword that is a proper prefix of another "
